@@ -9,6 +9,7 @@ import Verif.Lemmas.C04
 
 namespace Verif.C04
 open Verif.Py
+open Verif.C01 (cdiv cdiv_le_iff)
 
 /-! ## Window membership: `self[a:b]` inside the downsampling loops -/
 
@@ -177,6 +178,45 @@ theorem by_ts_refused (f : List Rat → Rat) (l : List Sample) (k : Nat) :
 example : (downBy (fun l => l.sum) (.cont ⟨100, 10, [1, 2, 3, 4, 5, 6, 7]⟩) 3).toOption.map (·.samples)
     = some [(110, 6), (140, 15)] := by decide +kernel
 
+/-! ### composition of two `downsampled_by` (deepening round D) -/
+
+/-- Composition: `downsampled_by(k₁)` followed by `downsampled_by(k₂)` has the SAME timestamps and period as
+    `downsampled_by(k₁·k₂)` (the two half-period shifts `dt(k₁-1)//2` and `dt·k₁(k₂-1)//2` never both round), and
+    its sample `i` is `g` of the `k₂` values `f(block)` of the `k₁`-blocks of the `i`-th `k₁·k₂`-block. -/
+theorem by_by (f g h : List Rat → Rat) (c : Cont) (k1 k2 : Nat) (hk1 : 0 < k1) (hk2 : 0 < k2) :
+    ∃ r1 r2 r12, downBy f (.cont c) k1 = .ok r1 ∧ downBy g (.cont r1) k2 = .ok r2 ∧
+      downBy h (.cont c) (k1 * k2) = .ok r12 ∧
+      r2.dt = r12.dt ∧ r2.timestamps = r12.timestamps ∧
+      r2.data = (blocks (k1 * k2) c.data).map (fun B => g ((blocks k1 B).map f)) ∧
+      r12.data = (blocks (k1 * k2) c.data).map h := by
+  obtain ⟨r1, r2, r12, h1, h2, h12, hst, hdt, hd2, hd12⟩ := by_by' f g h c k1 k2 hk1 hk2
+  refine ⟨r1, r2, r12, h1, h2, h12, hdt, ?_, hd2, hd12⟩
+  have hl : r2.data.length = r12.data.length := by rw [hd2, hd12]; simp
+  unfold Cont.timestamps Cont.stop
+  rw [hst, hdt, hl]
+
+/-- For `reduce = np.sum` the composition IS `downsampled_by(k₁·k₂)`: same samples, same timestamps, same period. -/
+theorem by_by_sum (c : Cont) (k1 k2 : Nat) (hk1 : 0 < k1) (hk2 : 0 < k2) :
+    ∃ r1 r2, downBy Reduce.sum.apply (.cont c) k1 = .ok r1 ∧ downBy Reduce.sum.apply (.cont r1) k2 = .ok r2 ∧
+      downBy Reduce.sum.apply (.cont c) (k1 * k2) = .ok r2 := by
+  obtain ⟨r1, r2, r12, h1, h2, h12, hst, hdt, hd2, hd12⟩ :=
+    by_by' Reduce.sum.apply Reduce.sum.apply Reduce.sum.apply c k1 k2 hk1 hk2
+  refine ⟨r1, r2, h1, h2, ?_⟩
+  rw [h12]
+  congr 1
+  have hd : r2.data = r12.data := by
+    rw [hd2, hd12]
+    apply List.map_congr_left
+    intro B hB
+    have hlen := mem_blocks_length _ _ _ hB
+    exact sum_blocks k1 hk1 k2 B hlen
+  cases r2; cases r12
+  simp only at hst hdt hd
+  rw [hst, hdt, hd]
+
+example : (downBy Reduce.sum.apply (.cont ⟨100, 3, [1, 2, 3, 4, 5, 6, 7, 8, 9, 10, 11, 12, 13]⟩) 6).toOption
+    = some ⟨107, 18, [21, 57]⟩ := by decide +kernel
+
 /-- Long channels are handed to the model as a rule (`sample i = v i`, `contOf`); the model then answers
     a window of the downsampled channel from the rule alone.  That window IS the slice `[i0 : i0 + cnt]`
     of the full answer of `downsampled_by(k)` (to which `by_spec` applies), and the reported number of
@@ -332,6 +372,161 @@ theorem F3_witness :
         = some [(120, 2), (170, 7), (220, 12), (270, 17)] ∧
       (250, 300) ∈ fullWindows 100 300 50 ∧ (250, 300) ∉ pairs (arange 100 300 50) := by
   decide +kernel
+
+/-! ## the step `downsampled_to` uses, and when it answers (deepening round D) -/
+
+/-- `method="force"`: the requested step is used as it is; the only refusal is upsampling (a source period
+    longer than the requested one). -/
+theorem to_step_force (steps : List Int) (target step : Int) :
+    targetStep steps target .force = .ok step ↔ (∀ d ∈ steps, d ≤ target) ∧ step = target := by
+  unfold targetStep
+  by_cases h : steps.any (fun d => decide (target < d)) = true
+  · rw [if_pos h]
+    simp only [List.any_eq_true, decide_eq_true_eq] at h
+    obtain ⟨d, hd, hlt⟩ := h
+    constructor
+    · intro h'; cases h'
+    · rintro ⟨hall, _⟩; have := hall d hd; omega
+  · rw [if_neg h]
+    simp only [List.any_eq_true, decide_eq_true_eq, not_exists, not_and, Int.not_lt] at h
+    constructor
+    · intro h'; cases h'; exact ⟨h, rfl⟩
+    · rintro ⟨_, rfl⟩; rfl
+
+/-- `method="safe"` / `"ceil"`: a single source period `d ≤ target` is required; `safe` answers only for an exact
+    multiple, `ceil` rounds the step DOWN to the nearest multiple of `d` (the rate up).  (`d = 0`: numpy's integer
+    modulo by zero is 0.) -/
+theorem to_step_safe_ceil (steps : List Int) (target step : Int) (m : Method) (hm : m ≠ .force) :
+    targetStep steps target m = .ok step ↔
+      ∃ d, steps = [d] ∧ d ≤ target ∧
+        ((d = 0 ∨ target % d = 0) ∧ step = target ∨
+         (d ≠ 0 ∧ target % d ≠ 0 ∧ m = .ceil ∧ step = target - target % d)) := by
+  unfold targetStep
+  by_cases h : steps.any (fun d => decide (target < d)) = true
+  · rw [if_pos h]
+    simp only [List.any_eq_true, decide_eq_true_eq] at h
+    obtain ⟨d, hd, hlt⟩ := h
+    constructor
+    · intro h'; cases h'
+    · rintro ⟨d', rfl, hle, _⟩
+      simp only [List.mem_singleton] at hd
+      subst hd; omega
+  · rw [if_neg h]
+    simp only [List.any_eq_true, decide_eq_true_eq, not_exists, not_and, Int.not_lt] at h
+    cases m with
+    | force => exact absurd rfl hm
+    | safe =>
+      match steps, h with
+      | [], _ => simp
+      | [d], h =>
+        have hd := h d (by simp)
+        by_cases h0 : d = 0
+        · subst h0; simp; constructor <;> (intro h'; omega)
+        · by_cases hr : target % d = 0
+          · simp [h0, hr, hd]; constructor <;> (intro h'; omega)
+          · simp [h0, hr, hd]
+      | d :: e :: r, _ => simp
+    | ceil =>
+      match steps, h with
+      | [], _ => simp
+      | [d], h =>
+        have hd := h d (by simp)
+        by_cases h0 : d = 0
+        · subst h0; simp; constructor <;> (intro h'; omega)
+        · by_cases hr : target % d = 0
+          · simp [h0, hr, hd]; constructor <;> (intro h'; omega)
+          · simp [h0, hr, hd]; constructor <;> (intro h'; omega)
+      | d :: e :: r, _ => simp
+
+/-- What `ceil` returns is the LARGEST multiple of the source period not exceeding the requested step, and it is
+    still at least one source period (no upsampling after rounding). -/
+theorem to_step_ceil_largest_multiple (d target step : Int) (hd : 0 < d)
+    (h : targetStep [d] target .ceil = .ok step) :
+    step % d = 0 ∧ step ≤ target ∧ target < step + d ∧ d ≤ step := by
+  obtain ⟨d', hd', hle, hc⟩ := (to_step_safe_ceil [d] target step .ceil (by decide)).mp h
+  simp only [List.cons.injEq, and_true] at hd'
+  subst hd'
+  have hnn := Int.emod_nonneg target (by omega : d ≠ 0)
+  have hlt := Int.emod_lt_of_pos target hd
+  have hdm := Int.emod_add_mul_ediv target d
+  have hq : 1 ≤ target / d := by
+    by_cases hq : 1 ≤ target / d
+    · exact hq
+    · have : target / d ≤ 0 := by omega
+      have := Int.mul_le_mul_of_nonneg_left this (Int.le_of_lt hd)
+      omega
+  have hq' : d * 1 ≤ d * (target / d) := Int.mul_le_mul_of_nonneg_left hq (Int.le_of_lt hd)
+  rcases hc with ⟨h0, hs⟩ | ⟨_, _, _, rfl⟩
+  · subst hs
+    rcases h0 with h0 | h0
+    · omega
+    · refine ⟨h0, by omega, by omega, by omega⟩
+  · refine ⟨?_, by omega, by omega, by omega⟩
+    have : target - target % d = d * (target / d) := by omega
+    rw [this]; exact Int.mul_emod_right _ _
+
+example : targetStep [10] 47 .ceil = .ok 40 ∧ targetStep [10] 47 .safe = .error .value ∧
+    targetStep [10] 47 .force = .ok 47 ∧ targetStep [10] 9 .force = .error .value ∧
+    targetStep [10, 20] 40 .safe = .error .value ∧ targetStep [10, 20] 40 .force = .ok 40 := by decide
+
+/-- When `downsampled_to` answers at all (settled positive step): exactly when `where` is valid and the span is
+    LONGER than one step.  A span of exactly one step — one complete window — is refused (`ValueError`); that is
+    finding F3 at its smallest. -/
+theorem to_answers_iff (f : List Rat → Rat) (s : Src) (target step st sp : Int) (m : Method) (wh : Option Bool)
+    (ht : targetStep s.timesteps target m = .ok step) (hs : 0 < step)
+    (hst : s.start? = some st) (hsp : s.stop? = some sp) :
+    (∃ out, downTo f s target (some m) wh = .ok out) ↔ wh ≠ none ∧ step < sp - st := by
+  rw [to_is_over f s target step st sp m wh ht (by omega) hst hsp, over_errors]
+  have hin := (to_windows_disjoint st sp step hs).2
+  constructor
+  · rintro ⟨r0, rl, st', sp', h0, hl, hst', hsp', hno, hw⟩
+    refine ⟨hw, ?_⟩
+    have hm : r0 ∈ pairs (arange st sp step) := List.mem_of_mem_head? h0
+    have h2 := (hin r0 hm).2.2
+    rw [to_windows] at hm
+    obtain ⟨i, _, rfl⟩ := (mem_blockWins _ _ _ _).mp hm
+    have h1 : 0 ≤ (i : Int) * step := Int.mul_nonneg (by omega) (Int.le_of_lt hs)
+    simp only at h2
+    linarith
+  · rintro ⟨hw, hlt⟩
+    have hmem : (st, st + step) ∈ pairs (arange st sp step) := by
+      rw [to_windows, mem_blockWins]
+      refine ⟨0, ?_, by simp⟩
+      have h2 : ¬ (cdiv (sp - st) step ≤ 1) := by
+        rw [cdiv_le_iff hs]; omega
+      unfold cdiv at h2
+      omega
+    have hne : pairs (arange st sp step) ≠ [] := List.ne_nil_of_mem hmem
+    obtain ⟨r0, h0⟩ : ∃ r0, (pairs (arange st sp step)).head? = some r0 := by
+      cases hp : pairs (arange st sp step) with
+      | nil => exact absurd hp hne
+      | cons a t => exact ⟨a, rfl⟩
+    obtain ⟨rl, hl⟩ : ∃ rl, (pairs (arange st sp step)).getLast? = some rl :=
+      ⟨_, List.getLast?_eq_some_getLast hne⟩
+    refine ⟨r0, rl, st, sp, h0, hl, hst, hsp, ?_, hw⟩
+    have a0 := hin r0 (List.mem_of_mem_head? h0)
+    have al := hin rl (List.mem_of_getLast? hl)
+    omega
+
+
+/-- Non-vacuity of `to_answers_iff`: five samples of period 10 and a step of 50 (exactly one complete window) are
+    refused; six samples are answered. -/
+example : targetStep (Src.cont ⟨100, 10, [1, 2, 3, 4, 5]⟩).timesteps 50 .safe = .ok 50 ∧
+    downTo Reduce.mean.apply (.cont ⟨100, 10, [1, 2, 3, 4, 5]⟩) 50 (some .safe) (some true) = .error .value ∧
+    downTo Reduce.mean.apply (.cont ⟨100, 10, [1, 2, 3, 4, 5, 6]⟩) 50 (some .safe) (some true) = .ok [(120, 3)] := by
+  decide +kernel
+
+/-- The Hz → ns conversion (`targetOfFreq`, executed on doubles: `int(1e9 / frequency)`) is the only thing between
+    `downsampled_to(frequency)` and the integer-step function all theorems of this section speak about; its
+    refusals (`ZeroDivisionError`, `ValueError` for nan, `OverflowError`) are passed on; an unknown method is
+    refused before the conversion. -/
+theorem to_freq_is_to (f : List Rat → Rat) (s : Src) (fq : Float) (m : Method) (wh : Option Bool) :
+    (∀ t, targetOfFreq fq = some (.ok t) → downToFreq f s fq (some m) wh = some (downTo f s t (some m) wh)) ∧
+    (∀ e, targetOfFreq fq = some (.error e) → downToFreq f s fq (some m) wh = some (.error e)) ∧
+    downToFreq f s fq none wh = some (.error .value) := by
+  refine ⟨?_, ?_, rfl⟩
+  · intro t h; simp only [downToFreq, h]
+  · intro e h; simp only [downToFreq, h]
 
 /-! ## `downsampled_like` (`pw = false` is the code as it is; `pw = true` the proposed repair of F9) -/
 
@@ -500,6 +695,56 @@ theorem F9_witness :
         (.ts [(0, 0), (10, 1), (20, 2), (50, 3), (80, 4), (110, 5)])).toOption.map (·.1)
       = some [(110, 11 / 2)] := by decide +kernel
 
+/-! ## `downsampled_like`: refusals (deepening round D) -/
+
+/-- The refusals of `downsampled_like`, in the order the code tests them. -/
+theorem like_refusals (pw : Bool) (f : List Rat → Rat) (s : Src) (c' : Cont) (r l : List Sample) :
+    like pw f s (.cont c') = .error .type ∧
+    like pw f (.ts l) (.ts r) = .error .notImpl := ⟨by cases s <;> rfl, rfl⟩
+
+/-- When `downsampled_like` answers for a continuous source and a time-series reference: the reference holds at
+    least two samples (`IndexError` otherwise), the source starts no later than the second-to-last reference
+    timestamp `T[-1] - δ[-1]` and stops after the first one (`RuntimeError` otherwise), and at least one reference
+    sample is kept (`IndexError` otherwise: the result would be empty). -/
+theorem like_answers_iff (pw : Bool) (f : List Rat → Rat) (c : Cont) (r : List Sample) :
+    (∃ o, like pw f (.cont c) (.ts r) = .ok o) ↔
+      ∃ t0 tl dl, (r.map (·.1)).head? = some t0 ∧ (r.map (·.1)).getLast? = some tl ∧
+        (diff (r.map (·.1))).getLast? = some dl ∧ c.start ≤ tl - dl ∧ t0 < c.stop ∧
+        likeKept pw c (r.map (·.1)) ≠ [] := by
+  unfold like
+  simp only
+  constructor
+  · rintro ⟨o, ho⟩
+    split at ho
+    · rename_i tl dl t0 h1 h2 h3
+      split at ho
+      · cases ho
+      · rename_i hno
+        refine ⟨t0, tl, dl, h3, h1, h2, by omega, by omega, ?_⟩
+        intro hk
+        simp [likeWindows, hk] at ho
+    · cases ho
+  · rintro ⟨t0, tl, dl, h3, h1, h2, ha, hb, hk⟩
+    simp only [h1, h2, h3]
+    rw [if_neg (by omega)]
+    cases hK : likeKept pw c (r.map (·.1)) with
+    | nil => exact absurd hK hk
+    | cons a t =>
+      have hne : (List.map (fun (x : Int × List Rat) => (x.1, f x.2)) (likeWindows pw c (r.map (·.1)))) ≠ [] := by
+        simp [likeWindows, hK]
+      generalize (List.map (fun (x : Int × List Rat) => (x.1, f x.2)) (likeWindows pw c (r.map (·.1)))) = out at *
+      cases out with
+      | nil => exact absurd rfl hne
+      | cons x xs =>
+        have : ∃ b, (x :: xs).getLast? = some b := ⟨_, List.getLast?_eq_some_getLast (by simp)⟩
+        obtain ⟨b, hb'⟩ := this
+        simp only [List.head?_cons, hb']
+        exact ⟨_, rfl⟩
+
+example : like true Reduce.mean.apply (.cont ⟨100, 10, [1, 2, 3]⟩) (.ts [(120, 0)]) = .error .index := by decide +kernel
+example : like true Reduce.mean.apply (.cont ⟨100, 10, [1, 2, 3]⟩) (.ts [(300, 0), (320, 1), (340, 2)]) = .error .runtime := by
+  decide +kernel
+
 /-! ## Arithmetic between two channels -/
 
 /-- `a <op> b` answers only on identical timestamps; the result keeps those timestamps and its data
@@ -521,5 +766,57 @@ theorem arith_refused (op : Op) (a b : Src) :
 example : (arith .div (.cont ⟨100, 10, [1, 2]⟩) (.ts [(100, 3), (110, 4)])).toOption.map (·.samples)
     = some [(100, 1 / 3), (110, 1 / 2)] := by decide +kernel
 example : arith .add (.cont ⟨100, 10, [1, 2]⟩) (.ts [(100, 3), (111, 4)]) = .error .runtime := by decide +kernel
+
+/-! ### negation, scalar operands, chains (deepening round D) -/
+
+/-- `-a` and arithmetic with a scalar keep the timestamps and act element-wise. -/
+theorem neg_scalar_spec (op : Op) (a : Src) (x : Rat) (rev : Bool) :
+    (neg a).timestamps = a.timestamps ∧ (neg a).data = a.data.map (fun v => -v) ∧
+    (arithScalar op a x rev).timestamps = a.timestamps ∧
+    (arithScalar op a x rev).data = a.data.map (fun v => if rev then op.apply x v else op.apply v x) := by
+  refine ⟨withData_timestamps _ _ (by simp), withData_data _ _ (by simp),
+    withData_timestamps _ _ (by simp), withData_data _ _ (by simp)⟩
+
+/-- Chaining: the result of `a <op₁> b` is again a channel on the timestamps of `a`, so `(a <op₁> b) <op₂> c`
+    answers exactly when `c` carries those timestamps too, and the final result still carries them. -/
+theorem arith_chain (op1 op2 : Op) (a b c r : Src) (ha : a.wf) (hb : b.wf) (hc : c.wf)
+    (h : arith op1 a b = .ok r) :
+    r.wf ∧ ((∃ r', arith op2 r c = .ok r') ↔ c.timestamps = a.timestamps) ∧
+      ∀ r', arith op2 r c = .ok r' → r'.timestamps = a.timestamps ∧
+        r'.data = List.zipWith op2.apply (List.zipWith op1.apply a.data b.data) c.data := by
+  obtain ⟨_, h2, h3, _⟩ := arith_spec op1 a b ha hb r h
+  have hr : r.wf := by
+    unfold arith at h
+    split at h
+    · cases h
+    · simp only [Except.ok.injEq] at h; rw [← h]; exact withData_wf a _ ha
+  refine ⟨hr, ?_, ?_⟩
+  · constructor
+    · rintro ⟨r', hr'⟩
+      have := (arith_spec op2 r c hr hc r' hr').1
+      rw [this, h2]
+    · intro hct
+      exact (arith_refused op2 r c).2 (by rw [hct, h2])
+  · intro r' hr'
+    obtain ⟨_, g2, g3, _⟩ := arith_spec op2 r c hr hc r' hr'
+    exact ⟨by rw [g2, h2], by rw [g3, h3]⟩
+
+/-- `a - b` is `a + (-b)`: same refusals, same result. -/
+theorem sub_eq_add_neg (a b : Src) : arith .sub a b = arith .add a (neg b) := by
+  have ht : (neg b).timestamps = b.timestamps := withData_timestamps _ _ (by simp)
+  have hd : (neg b).data = b.data.map (fun v => -v) := withData_data _ _ (by simp)
+  unfold arith
+  rw [ht, hd]
+  congr 2
+  rw [List.zipWith_map_right]
+  have e : Op.sub.apply = fun (a b : Rat) => Op.add.apply a (-b) := by
+    funext x y
+    simp only [Op.apply]
+    exact Rat.sub_eq_add_neg x y
+  rw [e]
+
+example : (arith .sub (.cont ⟨100, 10, [5, 7]⟩) (.ts [(100, 1), (110, 3)])).toOption.map (·.samples)
+    = some [(100, 4), (110, 4)] := by decide +kernel
+example : (arithScalar .div (.ts [(3, 2), (9, 4)]) 8 true).samples = [(3, 4), (9, 2)] := by decide +kernel
 
 end Verif.C04
